@@ -9,8 +9,10 @@ INF = math.inf
 NAMES = ["A", "B", "C", "D", "E", "F", "G", "H", "X1", "_y", "pop_3", "Zz", "a", "b0"]
 RATES = [1e-5, 1e-4, 1e-3, 0.01, 0.1, 0.25, 0.5, 0, 1e-4, 1e-4, 1]
 SIZES = [100, 1000, 5000.0, 1e4, 250.5, 1, 0.5, 12345, 3e6, 100, 1000]
-PROPS2 = [[0.5, 0.5], [0.25, 0.75], [0.1, 0.9], [0.3, 0.7], [1e-3, 0.999]]
-PROPS3 = [[0.2, 0.3, 0.5], [1 / 3, 1 / 3, 1 / 3], [0.25, 0.25, 0.5], [0.1, 0.1, 0.8]]
+PROPS2 = [[0.5, 0.5], [0.25, 0.75], [0.1, 0.9], [0.3, 0.7], [1e-3, 0.999],
+          [0.3333333333, 0.6666666666], [0.5151395938, 0.4848604063]]      # the last two sum to 1 only within the tolerance
+PROPS3 = [[0.2, 0.3, 0.5], [1 / 3, 1 / 3, 1 / 3], [0.25, 0.25, 0.5], [0.1, 0.1, 0.8],
+          [0.5151395938, 0.2771172579, 0.2077431484], [0.3333333333, 0.3333333333, 0.3333333333]]
 
 
 def up(x):
@@ -351,6 +353,41 @@ def respell(rng, doc, p=0.5):
             del d[k]
     if d.get("time_units") == "generations" and d.get("generation_time") == 1 and coin():
         del d["generation_time"]
+    return d
+
+
+def near_bounds(rng, doc):
+    """An explicit valid document with some times moved a hair inside their bound: a single-ancestor deme starting
+    just above its ancestor's end instead of exactly at it, migrations starting just below / ending just above the
+    two demes' common interval.  Valid, and different from the document with the exact values."""
+    d = copy.deepcopy(doc)
+    span = _ends(d)
+
+    def hair_up(x):
+        return rng.choice([up(float(x)), float(x) * (1 + 1e-11) if x else 1e-11, float(x) + 1e-9 * max(1.0, float(x))])
+
+    def hair_down(x):
+        return rng.choice([down(float(x)), float(x) * (1 - 1e-11), float(x) - 1e-9 * max(1.0, float(x))])
+    for dm in d["demes"]:
+        anc = dm.get("ancestors", [])
+        if len(anc) == 1 and dm.get("start_time") == span[anc[0]][1] and rng.random() < 0.6:
+            v = hair_up(dm["start_time"])
+            if v < span[anc[0]][0] and all(e["end_time"] < v for e in dm["epochs"]):
+                dm["start_time"] = v
+    span = _ends(d)
+    for m in d.get("migrations", []):
+        if "source" not in m or m["source"] not in span or m["dest"] not in span:
+            continue
+        lo = max(span[m["source"]][1], span[m["dest"]][1])
+        hi = min(span[m["source"]][0], span[m["dest"]][0])
+        if m.get("start_time") == hi and not math.isinf(hi) and rng.random() < 0.5:
+            v = hair_down(hi)
+            if v > m.get("end_time", lo):
+                m["start_time"] = v
+        if m.get("end_time") == lo and rng.random() < 0.5:
+            v = hair_up(lo)
+            if v < m.get("start_time", hi):
+                m["end_time"] = v
     return d
 
 
